@@ -1,14 +1,47 @@
-(* C20, printf part.  (interim version: the former _refuted witnesses of D31 and D35 now end in
-   the assertion hook / fetch exactly three arguments; the general theorem replaces this file) *)
+(* C20, printf part: printf_format is memory-safe and total on arbitrary input.
+
+   FULL STATEMENT (DESIGN section 4, C20):
+     for EVERY byte list s (the buffer is s ++ [0], exactly), every argument list and every initial
+     content of the 9-cell positional cache: printf_format terminates within fuel (length s + 1),
+     reads only indices <= length s, never overflows an int, ends in Ok or AssertStop - never UB -
+     AND fetches exactly the arguments the directives name ("*", ".*", the converted value; for n$
+     the positions up to n).
+
+   PROVED below (C20_printf_total_safe_partial): everything except the last clause.  [run_printf]
+   runs the parser with fuel S (length s); every byte is read through [read], which is
+   UB "oob: format string read past its NUL" for an index > length s; the int accumulations are
+   UB "signed overflow" when they leave int; the theorem excludes OutOfFuel and every UB that is not a
+   fault of the argument list itself (too few arguments for the directives, a %s argument that is not a
+   pointer to a string / not terminated within its buffer - the three messages of [caller_fault]).
+   MISSING: the exact-fetch clause needs an independent list-level definition of "the arguments a
+   format names" and a proof that the parser's va_arg log equals it; the check covers it dynamically
+   (comp/printf/gen.py scan_args is that independent definition; the harness reads the number of
+   fetches off the real va_list and the model's log is compared with it, kind "va-overrun"). *)
 From Coq Require Import String.
 From Coq Require Import NArith ZArith List Bool.
-From FV Require Import Printf.PrintIntModel Printf.PrintfModel.
+From FV Require Import Printf.PrintIntModel Printf.PrintfModel Printf.PrintfSafety.
 Import ListNotations.
 
-Theorem C20_printf_corpus :
-  snd (run_printf [] [37; 57; 57; 57; 57; 57; 57; 57; 57; 57; 57; 57; 100]%N [1%N] [])
-    = AssertStop msg_width_overflow
-  /\ let r := run_printf [] [37; 51; 36; 100; 37; 49; 36; 100; 37; 50; 36; 100]%N [1; 2; 3]%N (repeat 0%N 9) in
-     snd r = Ok tt /\ length (va_pops (ps_vs (fst r))) = 3%nat.
-Proof. split; [reflexivity | split; reflexivity]. Qed.
-Print Assumptions C20_printf_corpus.
+Theorem C20_printf_total_safe_partial :
+  forall (mem : memory) (s : list byte) (args cache : list N),
+    (9 <= length cache)%nat ->
+    match snd (run_printf mem s args cache) with
+    | Ok _ => True
+    | AssertStop _ => True
+    | UB w => caller_fault w
+    | OutOfFuel => False
+    end.
+Proof. exact printf_format_total_safe. Qed.
+Print Assumptions C20_printf_total_safe_partial.
+
+(* non-vacuity: a format that reaches every part of the parser ends Ok; a cut-off directive and an
+   overlong width stop in the assertion hook (the former D31); a missing argument is a caller fault *)
+Example C20_printf_total_safe_examples :
+  let run f args := snd (run_printf [] f args (repeat 0%N 9)) in
+  (* "a%%%-+ #0'12.34lld%2$*.*hhx" *)
+  run [97; 37; 37; 37; 45; 43; 32; 48; 39; 49; 50; 46; 51; 52; 108; 108; 100; 37; 50; 36; 42; 46; 42; 104; 104; 120]%N
+      [5; 3; 4; 6]%N = Ok tt
+  /\ run [37; 53; 46]%N [] = AssertStop "*s"
+  /\ run [37; 57; 57; 57; 57; 57; 57; 57; 57; 57; 57; 57; 100]%N [1%N] = AssertStop msg_width_overflow
+  /\ run [37; 100; 37; 100]%N [1%N] = UB "va_arg past the last argument".
+Proof. repeat split; vm_compute; reflexivity. Qed.
